@@ -1,0 +1,11 @@
+//go:build verif
+
+// Machine-checked contracts for package zhttp (comment-only; see /verif/DESIGN.md).
+
+package zhttp
+
+//@ func StripPort
+//@   property C11 C04
+//@   nopanic
+//@   ensures @an_address_without_brackets_or_a_single_colon_is_returned_whole len(ret0) <= len(clientIP)
+//@   modifies nothing
